@@ -207,7 +207,8 @@ Inductive key_error :=
 | KELocked (key : bytes) (l : lockrec)
 | KEConflict (key primary : bytes) (conflict_ts start_ts commit_ts : N)
 | KEAbort (a : abort)
-| KECommitTsExpired (key : bytes) (commit_ts min_commit : N).
+| KECommitTsExpired (key : bytes) (commit_ts min_commit : N)
+| KERetryable.    (* a DB write was refused (only in Model/PercolatorFault.v; the ideal store never refuses) *)
 
 Record mutation := { m_op : op; m_key : bytes; m_val : bytes }.
 
